@@ -82,6 +82,10 @@ func (c03) Run(c *run.Ctx, phase, idx int) {
 	r := rng(c.Env, "C03v", phase, idx)
 	t := int(a.Type)
 	try := func(variant string, v *ref.Packet) { c03Try(c, v, variant, part) }
+	if r.Chance(1, 4) {
+		noise(r)
+		c.Count("history", "noise-before-decode", 1)
+	}
 
 	try("as-listed", a)
 	if len(a.Props) > 1 || len(a.WillProps) > 1 {
